@@ -334,10 +334,15 @@ impl Invocations
 			if by_config
 			{
 				let p = write_script(&bindir, "configured", "config", backend_status);
-				std::fs::write(dir.join("penne.toml"), format!("backend = \"{}\"\n", p.display()))
-					.map_err(|e| e.to_string())?;
+				// the configured backend is a path, or a bare name found on the
+				// PATH; the file itself lies in the working directory or below it
+				let value = if c.flag() { p.display().to_string() } else { "configured".to_string() };
+				let file = if c.flag() { "penne.toml" } else { "settings/penne.toml" };
+				std::fs::create_dir_all(dir.join("settings")).map_err(|e| e.to_string())?;
+				std::fs::write(dir.join(file), format!("backend = \"{}\"\n", value)).map_err(|e| e.to_string())?;
 				argv.push("--config".into());
-				argv.push("penne.toml".into());
+				argv.push(file.into());
+				out.class(format!("config:{} in {}", if value == "configured" { "bare name" } else { "path" }, if file == "penne.toml" { "the working directory" } else { "a sub-directory" }));
 			}
 			write_script(&bindir, "clang", "default", backend_status);
 			path_prefix = Some(bindir.clone());
@@ -744,6 +749,92 @@ impl Stream for InvalidEncoding
 	}
 }
 
+/// a backend (or the program it runs) that is ended by a signal has no exit
+/// status to show: that is a failure of the backend, never a success
+struct Signals;
+const SIGNAL_CASES: &[(&str, &str, &str, &str)] = &[
+	// (what, subcommand, program body, backend: "" = the real lli, otherwise the signal a script sends itself)
+	("the program calls abort!()", "run", "\tabort!();\n", ""),
+	("the program calls panic!()", "run", "\tpanic!(\"enough\\n\");\n", ""),
+	("the interpreter is killed (KILL)", "run", "", "KILL"),
+	("the interpreter is terminated (TERM)", "run", "", "TERM"),
+	("the interpreter aborts (ABRT)", "run", "", "ABRT"),
+	("the interpreter is interrupted (INT)", "run", "", "INT"),
+	("the backend is killed (KILL)", "build", "", "KILL"),
+	("the backend aborts (ABRT)", "build", "", "ABRT"),
+];
+impl Stream for Signals
+{
+	fn name(&self) -> String
+	{
+		"backends-ended-by-a-signal".into()
+	}
+	fn count(&self, _tier: Tier) -> u64
+	{
+		SIGNAL_CASES.len() as u64 * 2
+	}
+	fn exhaustive(&self) -> bool
+	{
+		true
+	}
+	fn run(&self, idx: u64, _c: &mut Choices, ctx: &RunCtx) -> CaseOut
+	{
+		let mut out = CaseOut::default();
+		let (what, sub, body, signal) = SIGNAL_CASES[(idx / 2) as usize];
+		let silent = idx % 2 == 1;
+		let dir = workdir(3_000_000 + idx);
+		let _ = std::fs::write(dir.join("prog.pn"), format!("fn main() -> i32\n{{\n\tprint!(\"started\\n\");\n{}\treturn: 0\n}}\n", body));
+		let mut argv: Vec<String> = vec![sub.into(), "prog.pn".into(), "--color=never".into(), "--out-dir".into(), "o".into()];
+		if silent
+		{
+			argv.push("--silent".into());
+		}
+		if !signal.is_empty()
+		{
+			let path = dir.join("ends_by_signal");
+			let _ = std::fs::write(&path, format!("#!/bin/sh\ncat > /dev/null\nkill -s {} $$\nsleep 5\nexit 0\n", signal));
+			let mut perm = std::fs::metadata(&path).unwrap().permissions();
+			perm.set_mode(0o755);
+			std::fs::set_permissions(&path, perm).unwrap();
+			argv.push("--backend".into());
+			argv.push(path.to_string_lossy().to_string());
+		}
+		let inv = Invocation {
+			argv: argv.clone(),
+			env: vec![],
+			path_prefix: None,
+		};
+		out.key = idx;
+		out.nontrivial = true;
+		out.class(format!("signal:{}", if signal.is_empty() { "raised by the program under lli" } else { signal }));
+		match run(&inv, &dir)
+		{
+			Err(e) => out.fail("harness: cannot run penne", json!({"error": e})),
+			Ok(r) =>
+			{
+				let stdout = String::from_utf8_lossy(&r.stdout).to_string();
+				if r.status == Some(124)
+				{
+					out.discarded = Some("watchdog".into());
+				}
+				else if r.status == Some(0) || stdout.contains("Output:")
+				{
+					out.fail(
+						format!("{}: reported as a success although {}", sub, what),
+						json!({"argv": argv, "exit": r.status, "stdout": stdout.chars().take(600).collect::<String>(), "stderr": String::from_utf8_lossy(&r.stderr).chars().take(600).collect::<String>()}),
+					);
+				}
+			}
+		}
+		let _ = std::fs::remove_dir_all(&dir);
+		if ctx.want_sample
+		{
+			out.sample = Some(json!({"argv": argv, "what": what}));
+		}
+		out
+	}
+}
+
 impl Check for C18
 {
 	fn id(&self) -> &'static str
@@ -763,6 +854,6 @@ impl Check for C18
 	}
 	fn streams(&self) -> Vec<Box<dyn Stream>>
 	{
-		vec![Box::new(Invocations), Box::new(Included), Box::new(InvalidEncoding)]
+		vec![Box::new(Invocations), Box::new(Included), Box::new(InvalidEncoding), Box::new(Signals)]
 	}
 }
